@@ -114,6 +114,16 @@ int main(int argc, char **argv) {
       relBySec[tgt][Rl.getOffset()] = n + "+" + std::to_string(add) + ":" + tn.str().str() + ":" + std::to_string(ssec);
     }
   }
+  // contents of small allocated data sections (initial values of statics, constant tables)
+  for (const SectionRef &S : Obj->sections()) {
+    ELFSectionRef ES(S);
+    if (!(ES.getFlags() & ELF::SHF_ALLOC) || S.isText() || S.isBSS() || S.getSize() == 0 || S.getSize() > (1u << 20)) continue;
+    auto C = S.getContents(); if (!C) continue;
+    out << "C\t" << S.getIndex() << "\t";
+    static const char *hx = "0123456789abcdef";
+    for (unsigned char ch : *C) out << hx[ch >> 4] << hx[ch & 15];
+    out << "\n";
+  }
   std::string ibufs; raw_string_ostream ibuf(ibufs);
   for (const SectionRef &S : Obj->sections()) {
     if (!S.isText()) continue;
